@@ -127,28 +127,56 @@ func (R *Repository) tryUpdateSignatureCertFromChain(entry *Entry, chains *core.
 	}
 }
 
+// loadCRL loads a crl for the first time. The crl is parsed into a temporary store which is only swapped into the entry
+// after the crl was accepted, so a rejected or interrupted load leaves nothing behind. The caller must hold the entry write lock.
 func (R *Repository) loadCRL(entry *Entry, chains *core.CertificateChains) (err error) {
 	R.logger.Debug("loading crl", zap.String("crl", entry.CRLLoader.GetDescription()))
+	var store crlstore.CRLStore
 	tempFileName, err := R.createTempFile()
 	if err != nil {
 		return err
 	}
+	defer func() {
+		if err != nil && store != nil {
+			store.Close()
+			err2 := store.Delete()
+			if err2 != nil {
+				R.logger.Warn("failed to delete database", zap.Error(err2))
+			}
+		}
+	}()
 	defer utils.CloseWithErrorHandling(func() error { return os.Remove(tempFileName) })
 	err = entry.CRLLoader.LoadCRL(tempFileName)
 	if err != nil {
 		return err
 	}
-	var processor = crlstore.CRLPersisterProcessor{CRLStore: entry.CRLStore}
+	identifier, err := entry.CRLLoader.GetCRLLocationIdentifier()
+	if err != nil {
+		return err
+	}
+	store, err = R.Factory.CreateStore(identifier, true)
+	if err != nil {
+		return err
+	}
+	var processor = crlstore.CRLPersisterProcessor{CRLStore: store}
+	//keep the crl locations which were stored when the entry was added
+	points, locationsErr := entry.CRLStore.GetCRLLocations()
+	if locationsErr == nil {
+		err = processor.UpdateCRLLocations(points)
+		if err != nil {
+			return err
+		}
+	}
 	result, err := R.crlReader.ReadCRL(processor, tempFileName)
 	if err != nil {
 		return err
 	}
 	if R.crlConfig.SignatureValidationModeParsed != config.SignatureValidationModeNone {
-		signatureCert, err := verifyCRLSignature(result, chains)
-		if err != nil {
+		signatureCert, verifyErr := verifyCRLSignature(result, chains)
+		if verifyErr != nil {
 			R.logger.Warn("could not validate signature of crl", zap.String("crl", entry.CRLLoader.GetDescription()))
 			if R.crlConfig.SignatureValidationModeParsed == config.SignatureValidationModeVerify {
-				return err
+				return verifyErr
 			}
 		} else {
 			R.logger.Debug("signature of crl validated successfully", zap.String("crl", entry.CRLLoader.GetDescription()))
@@ -156,9 +184,13 @@ func (R *Repository) loadCRL(entry *Entry, chains *core.CertificateChains) (err 
 			if err != nil {
 				return err
 			}
-			R.logger.Debug("crl loaded successfully", zap.String("crl", entry.CRLLoader.GetDescription()))
 		}
 	}
+	err = entry.CRLStore.Update(store)
+	if err != nil {
+		return err
+	}
+	R.logger.Debug("crl loaded successfully", zap.String("crl", entry.CRLLoader.GetDescription()))
 	entry.Loaded = true
 	entry.Chains = nil
 	return nil
@@ -273,11 +305,13 @@ func (R *Repository) updateCRL(identifier string) error {
 	entry := R.getEntrySync(identifier)
 	if entry != nil {
 		R.logger.Debug("updating crl from " + entry.CRLLoader.GetDescription())
-		if R.isEntryLoaded(entry) == false {
+		entry.entryLock.Lock()
+		if entry.Loaded == false {
+			defer entry.entryLock.Unlock()
 			return R.loadCRL(entry, entry.Chains)
-		} else {
-			return R.updateCrlEntry(entry, nil)
 		}
+		entry.entryLock.Unlock()
+		return R.updateCrlEntry(entry, nil)
 	}
 	return nil
 }
